@@ -110,7 +110,8 @@ def r02_1(ctx):
                     a = chain_alts(x, depth + 1)
                     if a is None:
                         return None
-                    out += a
+                    # inside a join, the layer rect / the surface rect stand for "the destination chosen on this path"
+                    out += [[('chosen-dest', y) if (is_layer_rect(y) or is_surface(y)) else y for y in alt] for alt in a]
                 return out if len(out) <= 8 else None
             if is_call(t, 'Box2D::<T, U>::intersection_unchecked') and len(t[2]) == 2:
                 a, b2 = chain_alts(t[2][0], depth + 1), chain_alts(t[2][1], depth + 1)
@@ -131,7 +132,7 @@ def r02_1(ctx):
                     return 'dest'
                 if t[0] == 'phi' and is_dest_selection(t):
                     return 'dest'
-                if is_layer_rect(t) or is_surface(t):
+                if t[0] == 'chosen-dest':
                     return 'dest'       # one arm of the destination selection, on a path that has chosen it
                 return 'other:' + fmt(b, t)[:30]
             worst = None
@@ -147,7 +148,7 @@ def r02_1(ctx):
         has_rect = ('param', P_RECT) in leaves
         has_maskrect = ('param', P_MASK_RECT) in leaves
         has_clip = any(l[0] == 'call' and l[1] == DT + 'clip_bounds' for l in leaves)
-        has_layer = any(l[0] == 'path' and ('f', 'rect') in l[2] and l[1][0] == 'call' and ('last_mut' in str(l[1][1]) or str(l[1][1]).endswith('::last')) for l in leaves)
+        has_layer = any(l[0] == 'path' and ('f', 'rect') in l[2] and l[1][0] == 'call' and ('last_mut' in str(l[1][1]) or str(l[1][1]).endswith('::last')) and 'layer_stack' in str(l[1][2]) for l in leaves)
         has_surface = any(l[0] == 'call' and isinstance(l[1], str) and l[1].endswith('geom::intrect') and
                           any(is_self_field(a, 'width') for a in l[2]) and any(is_self_field(a, 'height') for a in l[2]) for l in leaves)
         for name, ok in (('the rect argument', has_rect), ('mask_rect', has_maskrect), ('clip_bounds()', has_clip),
